@@ -598,6 +598,8 @@ class Judge:
         for api in ("ctx", "butler", "legacy"):
             for nm, got in zip(names, res.get(api, [])):
                 ctx.count()
+                if is_err(got) and got["err"] == "InconsistentDataId" and not exp and nm != "where":
+                    continue   # documented: a self-contradicting data ID may be rejected instead of selecting nothing
                 if is_err(got):
                     self.fail(f"spell-exception:{api}:{nm}", case, "constraint spelling raised", observed=got, spelling=nm)
                     continue
